@@ -16,6 +16,9 @@ Check(t) ==
         /\ Report("C09_PatchHeader", C09_PatchHeader(t.id_eq, t.orig_pub, t.pub1), [orig |-> t.orig_pub, pub1 |-> t.pub1])
         /\ Report("C09_PatchEqualsFull", C09_PatchEqualsFull(t.pub_patched, t.pub_full, t.loc_eq, t.tls_patched, t.tls_full),
                   [pp |-> t.pub_patched, pf |-> t.pub_full, loc |-> t.loc_eq, n1 |-> Len(t.tls_patched), n2 |-> Len(t.tls_full)])
+    \* the service advertised this PatchLocation itself: while the full manifest of the same options is served, the patch is too
+    ELSE IF t.ev = "patch_refused" THEN
+        Report("C09_PatchEqualsFull", t.full_status # 200, [patch_status |-> t.status, chain |-> t.chain])
     ELSE TRUE
 TraceInit == l = 1
 TraceNext == l <= Len(TraceLog) /\ Check(TraceLog[l]) /\ l' = l + 1
